@@ -644,6 +644,61 @@ func rootOf(addr ssa.Value) (ssa.Value, bool) {
 	}
 }
 
+// sliceRoots traces a slice value used inside a loop back to the slices it can
+// share an array with: values defined outside the loop. Append results and
+// reslices inside the loop either keep the array of their operand or (append)
+// get an array allocated in the loop, which is not a pre-existing object.
+func sliceRoots(v ssa.Value, blocks map[*ssa.BasicBlock]bool) ([]ssa.Value, bool) {
+	seen := map[ssa.Value]bool{}
+	var roots []ssa.Value
+	ok := true
+	var walk func(v ssa.Value)
+	walk = func(v ssa.Value) {
+		if seen[v] || !ok {
+			return
+		}
+		seen[v] = true
+		if len(seen) > 32 {
+			ok = false
+			return
+		}
+		in, isInstr := v.(ssa.Instruction)
+		if !isInstr || !blocks[in.Block()] {
+			switch v.(type) {
+			case *ssa.Const:
+				return // nil slice
+			case *ssa.Parameter, *ssa.FreeVar, ssa.Instruction:
+				roots = append(roots, v)
+				return
+			}
+			ok = false
+			return
+		}
+		switch x := v.(type) {
+		case *ssa.Phi:
+			for _, e := range x.Edges {
+				walk(e)
+			}
+		case *ssa.Slice:
+			if _, isSl := x.X.Type().Underlying().(*types.Slice); isSl {
+				walk(x.X)
+				return
+			}
+			ok = false
+		case *ssa.Call:
+			if b, isB := x.Call.Value.(*ssa.Builtin); isB && b.Name() == "append" {
+				walk(x.Call.Args[0])
+				return
+			}
+			ok = false
+		default:
+			ok = false
+		}
+	}
+	walk(v)
+	return roots, ok
+}
+
 // loopBases refines the write set of a loop to object granularity where the
 // written objects are either loop-invariant pointers or allocated in the loop.
 func (f *Frame) loopBases(blocks map[*ssa.BasicBlock]bool) map[string]*compBases {
@@ -764,7 +819,16 @@ func (f *Frame) loopBases(blocks map[*ssa.BasicBlock]bool) map[string]*compBases
 					switch p.name {
 					case "append", "copy":
 						if st, ok := cm.Args[0].Type().Underlying().(*types.Slice); ok {
-							addBase(c.elemComp(st.Elem()), cm.Args[0], true)
+							// a slice variable of the loop (phi of a pre-loop slice and of
+							// append results / reslices of itself) writes the array of the
+							// pre-loop slice or an array allocated by append in the loop
+							if roots, ok := sliceRoots(cm.Args[0], blocks); ok {
+								for _, r := range roots {
+									addBase(c.elemComp(st.Elem()), r, true)
+								}
+							} else {
+								addBase(c.elemComp(st.Elem()), cm.Args[0], true)
+							}
 						}
 					case "delete", "clear":
 						if mt, ok := cm.Args[0].Type().Underlying().(*types.Map); ok {
